@@ -11,7 +11,7 @@ def viewSize : View → Nat
   | .suspense _ _ vs => 1 + viewSizeL vs
   | .eb vs => 1 + viewSizeL vs
   | .resSuspend _ v => 1 + viewSize v
-  | .resRead _ v => 1 + viewSize v
+  | .resRead _ _ v => 1 + viewSize v
   | .localRead => 1
   | .localAwait _ => 1
 def viewSizeL : List View → Nat
@@ -52,31 +52,119 @@ theorem viewDocL_append (a b : List View) : viewDocL (a ++ b) = viewDocL a ++ vi
   | nil => simp [viewDocL]
   | cons o os ih => simp [viewDocL, ih]
 
-/-! `noLate c v`: no server resource is read *synchronously for the first time while the boundary resolves its children*
-    (a `resRead` inside the output of a `Suspend` or of another read, under a `Suspense`): such a read registers its
-    task after the boundary stopped collecting them, so nobody waits for it and what is rendered depends on whether
-    the resource had loaded by then (F-C07-6, class `sync-read-late`; `C07_late_read_witness`) -/
 mutual
-def noLate : Ctx → View → Bool
-  | _, .raw _ => true
-  | c, .seq vs => noLateL c vs
-  | .top, .suspend _ v => noLate .top v
-  | .direct, .suspend _ v => noLate .nested v
-  | .nested, .suspend _ v => noLate .nested v
-  | _, .suspense _ _ vs => noLateL .direct vs
-  | c, .eb vs => noLateL c vs
-  | .top, .resSuspend _ v => noLate .top v
-  | .direct, .resSuspend _ v => noLate .nested v
-  | .nested, .resSuspend _ v => noLate .nested v
-  | .top, .resRead _ v => noLate .top v
-  | .direct, .resRead _ v => noLate .nested v
-  | .nested, .resRead _ _ => false
-  | _, .localRead => true
-  | _, .localAwait _ => true
-def noLateL : Ctx → List View → Bool
-  | _, [] => true
-  | c, v :: vs => noLate c v && noLateL c vs
+theorem hasRead_guards : (v : View) → hasRead v = false → guardsOf v = []
+  | .raw _, _ => by simp [guardsOf]
+  | .seq vs, h => by simpa [guardsOf] using hasReadL_guards vs (by simpa [hasRead] using h)
+  | .suspend _ _, _ => by simp [guardsOf]
+  | .suspense _ _ _, _ => by simp [guardsOf]
+  | .eb vs, h => by simpa [guardsOf] using hasReadL_guards vs (by simpa [hasRead] using h)
+  | .resSuspend _ _, _ => by simp [guardsOf]
+  | .resRead _ _ _, h => by simp [hasRead] at h
+  | .localRead, _ => by simp [guardsOf]
+  | .localAwait _, _ => by simp [guardsOf]
+theorem hasReadL_guards : (vs : List View) → hasReadL vs = false → guardsOfL vs = []
+  | [], _ => by simp [guardsOfL]
+  | v :: vs, h => by
+    simp only [hasReadL, Bool.or_eq_false_iff] at h
+    simp [guardsOfL, hasRead_guards v h.1, hasReadL_guards vs h.2]
 end
+
+mutual
+theorem noLate_nested_hasRead : (v : View) → noLate .nested v = true → hasRead v = false
+  | .raw _, _ => by simp [hasRead]
+  | .seq vs, h => by simpa [hasRead] using noLateL_nested_hasRead vs (by simpa [noLate] using h)
+  | .suspend _ v, h => by simpa [hasRead] using noLate_nested_hasRead v (by simpa [noLate] using h)
+  | .suspense _ _ _, _ => by simp [hasRead]
+  | .eb vs, h => by simpa [hasRead] using noLateL_nested_hasRead vs (by simpa [noLate] using h)
+  | .resSuspend _ v, h => by simpa [hasRead] using noLate_nested_hasRead v (by simpa [noLate] using h)
+  | .resRead _ _ _, h => by simp [noLate] at h
+  | .localRead, _ => by simp [hasRead]
+  | .localAwait _, _ => by simp [hasRead]
+theorem noLateL_nested_hasRead : (vs : List View) → noLateL .nested vs = true → hasReadL vs = false
+  | [], _ => by simp [hasReadL]
+  | v :: vs, h => by
+    simp only [noLateL, Bool.and_eq_true] at h
+    simp [hasReadL, noLate_nested_hasRead v h.1, noLateL_nested_hasRead vs h.2]
+end
+
+mutual
+theorem noLate_direct_guards : (v : View) → noLate .direct v = true → guardsOf v = []
+  | .raw _, _ => by simp [guardsOf]
+  | .seq vs, h => by simpa [guardsOf] using noLateL_direct_guards vs (by simpa [noLate] using h)
+  | .suspend _ _, _ => by simp [guardsOf]
+  | .suspense _ _ _, _ => by simp [guardsOf]
+  | .eb vs, h => by simpa [guardsOf] using noLateL_direct_guards vs (by simpa [noLate] using h)
+  | .resSuspend _ _, _ => by simp [guardsOf]
+  | .resRead _ _ v, h => by
+    have h' : noLate .nested v = true := by simpa [noLate] using h
+    have hr := noLate_nested_hasRead v h'
+    simp [guardsOf, hr, hasRead_guards v hr]
+  | .localRead, _ => by simp [guardsOf]
+  | .localAwait _, _ => by simp [guardsOf]
+theorem noLateL_direct_guards : (vs : List View) → noLateL .direct vs = true → guardsOfL vs = []
+  | [], _ => by simp [guardsOfL]
+  | v :: vs, h => by
+    simp only [noLateL, Bool.and_eq_true] at h
+    simp [guardsOfL, noLate_direct_guards v h.1, noLateL_direct_guards vs h.2]
+end
+
+/-! ### the rendering rules in terms of `compile` (= `compileA` with nothing loaded at the enclosing boundary) -/
+
+theorem compile_raw (ooo : Bool) (c : Ctx) (s : Str) : compile ooo c (.raw s) = [Op.sync s] := by
+  cases c <;> simp [compile, compileA]
+theorem compile_seq (ooo : Bool) (c : Ctx) (vs : List View) : compile ooo c (.seq vs) = compileL ooo c vs := by
+  cases c <;> simp [compile, compileL, compileA]
+theorem compileL_nil (ooo : Bool) (c : Ctx) : compileL ooo c [] = [] := by simp [compileL, compileAL]
+theorem compileL_cons (ooo : Bool) (c : Ctx) (v : View) (vs : List View) :
+    compileL ooo c (v :: vs) = compile ooo c v ++ compileL ooo c vs := by simp [compile, compileL, compileAL]
+theorem compile_suspend_top (ooo : Bool) (f : FId) (v : View) :
+    compile ooo .top (.suspend f v) =
+      [Op.ite { deps := [f], tick := false } (compile ooo .top v)
+        (Op.nextId ::
+          (if ooo then [Op.fallback "<!>".toList, Op.ooo { deps := [f], tick := false } true (compile ooo .top v) none]
+           else [Op.async { deps := [f], tick := false } (compile ooo .top v)]))] := by simp [compile, compileA]
+theorem compile_suspend_direct (ooo : Bool) (f : FId) (v : View) :
+    compile ooo .direct (.suspend f v) = compile ooo .nested v := by simp [compile, compileA]
+theorem compile_suspend_nested (ooo : Bool) (f : FId) (v : View) :
+    compile ooo .nested (.suspend f v) = compile ooo .nested v := by simp [compile, compileA]
+theorem compile_resSuspend_top (ooo : Bool) (f : FId) (v : View) :
+    compile ooo .top (.resSuspend f v) =
+      [Op.ite { deps := [f], tick := true } (compile ooo .top v)
+        (Op.nextId ::
+          (if ooo then [Op.fallback "<!>".toList, Op.ooo { deps := [f], tick := true } true (compile ooo .top v) none]
+           else [Op.async { deps := [f], tick := true } (compile ooo .top v)]))] := by simp [compile, compileA]
+theorem compile_resSuspend_direct (ooo : Bool) (f : FId) (v : View) :
+    compile ooo .direct (.resSuspend f v) = compile ooo .nested v := by simp [compile, compileA]
+theorem compile_resSuspend_nested (ooo : Bool) (f : FId) (v : View) :
+    compile ooo .nested (.resSuspend f v) = compile ooo .nested v := by simp [compile, compileA]
+theorem compile_eb (ooo : Bool) (c : Ctx) (vs : List View) : compile ooo c (.eb vs) = [Op.sub (compileL ooo c vs)] := by
+  cases c <;> simp [compile, compileL, compileA]
+theorem compile_resRead_top (ooo : Bool) (once : Bool) (f : FId) (v : View) :
+    compile ooo .top (.resRead once f v) = compile ooo .top v := by simp [compile, compileA]
+theorem compile_resRead_direct (ooo : Bool) (once : Bool) (f : FId) (v : View) :
+    compile ooo .direct (.resRead once f v) = compile ooo .nested v := by simp [compile, compileA]
+theorem compile_resRead_nested (ooo : Bool) (once : Bool) (f : FId) (v : View) :
+    compile ooo .nested (.resRead once f v) =
+      [Op.ite { deps := [f], tick := false } (compile ooo .nested v) [Op.sync "<!>".toList]] := by simp [compile, compileA]
+theorem compile_localRead (ooo : Bool) (c : Ctx) : compile ooo c .localRead = [] := by
+  cases c <;> simp [compile, compileA]
+theorem compile_localAwait (ooo : Bool) (c : Ctx) (f : FId) : compile ooo c (.localAwait f) = [] := by
+  cases c <;> simp [compile, compileA]
+/-- a boundary none of whose walked reads has a read in its output: no branching on what had loaded -/
+theorem compile_suspense (ooo : Bool) (c : Ctx) (fb : Str) (nonce : Option Str) (vs : List View) (hg : guardsOfL vs = []) :
+    compile ooo c (.suspense fb nonce vs) =
+      if localNowL vs then [Op.nextId, Op.sync fb]
+      else match localWaitL vs with
+        | some f =>
+          Op.nextId ::
+            (if ooo then [Op.fallback fb, Op.ooo { deps := [f], tick := true } false [] nonce]
+             else [Op.async { deps := [f], tick := true } [Op.sync fb]])
+        | none =>
+          Op.nextId ::
+            (if ooo then [Op.fallback fb, Op.ooo { deps := directDepsL vs, tick := true } true (compileL ooo .direct vs) nonce]
+             else [Op.async { deps := directDepsL vs, tick := true } (compileL ooo .direct vs)]) := by
+  cases c <;> (simp only [compile, compileL, compileA, hg, iteTree, directDepsL]; try rfl)
 
 theorem compile_inOrd : ∀ (n : Nat),
     (∀ (c : Ctx) (v : View), viewSize v ≤ n → noLate c v = true →
@@ -90,7 +178,7 @@ theorem compile_inOrd : ∀ (n : Nat),
     · intro c v h; cases v <;> simp [viewSize] at h
     · intro c vs h _
       cases vs with
-      | nil => simp [compileL, inOrdOps, docOps, viewDocL]
+      | nil => simp [compileL_nil, compileL_cons, inOrdOps, docOps, viewDocL]
       | cons v vs => cases v <;> simp [viewSizeL, viewSize] at h
   | succ n ih =>
     have hL : ∀ (c : Ctx) (vs : List View), viewSizeL vs ≤ n + 1 → noLateL c vs = true →
@@ -99,72 +187,74 @@ theorem compile_inOrd : ∀ (n : Nat),
         inOrdOps (compileL false c vs) = true ∧ docOps (compileL false c vs) = viewDocL vs := by
       intro c vs
       induction vs with
-      | nil => intro _ _ _; simp [compileL, inOrdOps, docOps, viewDocL]
+      | nil => intro _ _ _; simp [compileL_nil, compileL_cons, inOrdOps, docOps, viewDocL]
       | cons v vs ihv =>
         intro h hn hv
         simp only [viewSizeL] at h
         simp only [noLateL, Bool.and_eq_true] at hn
         have h1 := hv c v (by omega) hn.1
         have h2 := ihv (by omega) hn.2 hv
-        simp [compileL, inOrdOps_append, docOps_append, viewDocL, h1, h2]
+        simp [compileL_nil, compileL_cons, inOrdOps_append, docOps_append, viewDocL, h1, h2]
     have hV : ∀ (c : Ctx) (v : View), viewSize v ≤ n + 1 → noLate c v = true →
         inOrdOps (compile false c v) = true ∧ docOps (compile false c v) = viewDoc v := by
       intro c v h hn
       cases v with
-      | raw s => cases c <;> simp [compile, inOrdOps, inOrdOp, docOps, docOp, viewDoc]
+      | raw s => cases c <;> simp [compile_raw, compile_seq, compileL_nil, compileL_cons, compile_suspend_top, compile_suspend_direct, compile_suspend_nested, compile_resSuspend_top, compile_resSuspend_direct, compile_resSuspend_nested, compile_eb, compile_resRead_top, compile_resRead_direct, compile_resRead_nested, compile_localRead, compile_localAwait, inOrdOps, inOrdOp, docOps, docOp, viewDoc]
       | seq vs =>
         simp only [viewSize] at h
         have := ih.2 c vs (by omega) (by cases c <;> simpa [noLate] using hn)
-        cases c <;> simpa [compile, viewDoc] using this
+        cases c <;> simpa [compile_raw, compile_seq, compileL_nil, compileL_cons, compile_suspend_top, compile_suspend_direct, compile_suspend_nested, compile_resSuspend_top, compile_resSuspend_direct, compile_resSuspend_nested, compile_eb, compile_resRead_top, compile_resRead_direct, compile_resRead_nested, compile_localRead, compile_localAwait, viewDoc] using this
       | suspend f v =>
         simp only [viewSize] at h
         cases c with
         | top =>
           have := ih.1 .top v (by omega) (by simpa [noLate] using hn)
-          simp [compile, inOrdOps, inOrdOp, docOps, docOp, viewDoc, this]
+          simp [compile_raw, compile_seq, compileL_nil, compileL_cons, compile_suspend_top, compile_suspend_direct, compile_suspend_nested, compile_resSuspend_top, compile_resSuspend_direct, compile_resSuspend_nested, compile_eb, compile_resRead_top, compile_resRead_direct, compile_resRead_nested, compile_localRead, compile_localAwait, inOrdOps, inOrdOp, docOps, docOp, viewDoc, this]
         | direct =>
           have := ih.1 .nested v (by omega) (by simpa [noLate] using hn)
-          simpa [compile, viewDoc] using this
+          simpa [compile_raw, compile_seq, compileL_nil, compileL_cons, compile_suspend_top, compile_suspend_direct, compile_suspend_nested, compile_resSuspend_top, compile_resSuspend_direct, compile_resSuspend_nested, compile_eb, compile_resRead_top, compile_resRead_direct, compile_resRead_nested, compile_localRead, compile_localAwait, viewDoc] using this
         | nested =>
           have := ih.1 .nested v (by omega) (by simpa [noLate] using hn)
-          simpa [compile, viewDoc] using this
+          simpa [compile_raw, compile_seq, compileL_nil, compileL_cons, compile_suspend_top, compile_suspend_direct, compile_suspend_nested, compile_resSuspend_top, compile_resSuspend_direct, compile_resSuspend_nested, compile_eb, compile_resRead_top, compile_resRead_direct, compile_resRead_nested, compile_localRead, compile_localAwait, viewDoc] using this
       | suspense fb nonce vs =>
         simp only [viewSize] at h
-        have := ih.2 .direct vs (by omega) (by cases c <;> simpa [noLate] using hn)
+        have hnl : noLateL .direct vs = true := by cases c <;> simpa [noLate] using hn
+        have hS := fun ooo c => compile_suspense ooo c fb nonce vs (noLateL_direct_guards vs hnl)
+        have := ih.2 .direct vs (by omega) hnl
         by_cases hl : localNowL vs = true
-        · cases c <;> simp [compile, inOrdOps, inOrdOp, docOps, docOp, viewDoc, hl]
+        · cases c <;> simp [compile_raw, compile_seq, compileL_nil, compileL_cons, compile_suspend_top, compile_suspend_direct, compile_suspend_nested, compile_resSuspend_top, compile_resSuspend_direct, compile_resSuspend_nested, compile_eb, compile_resRead_top, compile_resRead_direct, compile_resRead_nested, compile_localRead, compile_localAwait, hS, inOrdOps, inOrdOp, docOps, docOp, viewDoc, hl]
         · have hl' : localNowL vs = false := by simpa using hl
           cases hw : localWaitL vs with
-          | some f => cases c <;> simp [compile, inOrdOps, inOrdOp, docOps, docOp, viewDoc, hl', hw]
-          | none => cases c <;> simp [compile, inOrdOps, inOrdOp, docOps, docOp, viewDoc, hl', hw, this]
+          | some f => cases c <;> simp [compile_raw, compile_seq, compileL_nil, compileL_cons, compile_suspend_top, compile_suspend_direct, compile_suspend_nested, compile_resSuspend_top, compile_resSuspend_direct, compile_resSuspend_nested, compile_eb, compile_resRead_top, compile_resRead_direct, compile_resRead_nested, compile_localRead, compile_localAwait, hS, inOrdOps, inOrdOp, docOps, docOp, viewDoc, hl', hw]
+          | none => cases c <;> simp [compile_raw, compile_seq, compileL_nil, compileL_cons, compile_suspend_top, compile_suspend_direct, compile_suspend_nested, compile_resSuspend_top, compile_resSuspend_direct, compile_resSuspend_nested, compile_eb, compile_resRead_top, compile_resRead_direct, compile_resRead_nested, compile_localRead, compile_localAwait, hS, inOrdOps, inOrdOp, docOps, docOp, viewDoc, hl', hw, this]
       | eb vs =>
         simp only [viewSize] at h
         have := ih.2 c vs (by omega) (by cases c <;> simpa [noLate] using hn)
-        cases c <;> simp [compile, inOrdOps, inOrdOp, docOps, docOp, viewDoc, this]
+        cases c <;> simp [compile_raw, compile_seq, compileL_nil, compileL_cons, compile_suspend_top, compile_suspend_direct, compile_suspend_nested, compile_resSuspend_top, compile_resSuspend_direct, compile_resSuspend_nested, compile_eb, compile_resRead_top, compile_resRead_direct, compile_resRead_nested, compile_localRead, compile_localAwait, inOrdOps, inOrdOp, docOps, docOp, viewDoc, this]
       | resSuspend f v =>
         simp only [viewSize] at h
         cases c with
         | top =>
           have := ih.1 .top v (by omega) (by simpa [noLate] using hn)
-          simp [compile, inOrdOps, inOrdOp, docOps, docOp, viewDoc, this]
+          simp [compile_raw, compile_seq, compileL_nil, compileL_cons, compile_suspend_top, compile_suspend_direct, compile_suspend_nested, compile_resSuspend_top, compile_resSuspend_direct, compile_resSuspend_nested, compile_eb, compile_resRead_top, compile_resRead_direct, compile_resRead_nested, compile_localRead, compile_localAwait, inOrdOps, inOrdOp, docOps, docOp, viewDoc, this]
         | direct =>
           have := ih.1 .nested v (by omega) (by simpa [noLate] using hn)
-          simpa [compile, viewDoc] using this
+          simpa [compile_raw, compile_seq, compileL_nil, compileL_cons, compile_suspend_top, compile_suspend_direct, compile_suspend_nested, compile_resSuspend_top, compile_resSuspend_direct, compile_resSuspend_nested, compile_eb, compile_resRead_top, compile_resRead_direct, compile_resRead_nested, compile_localRead, compile_localAwait, viewDoc] using this
         | nested =>
           have := ih.1 .nested v (by omega) (by simpa [noLate] using hn)
-          simpa [compile, viewDoc] using this
-      | resRead f v =>
+          simpa [compile_raw, compile_seq, compileL_nil, compileL_cons, compile_suspend_top, compile_suspend_direct, compile_suspend_nested, compile_resSuspend_top, compile_resSuspend_direct, compile_resSuspend_nested, compile_eb, compile_resRead_top, compile_resRead_direct, compile_resRead_nested, compile_localRead, compile_localAwait, viewDoc] using this
+      | resRead once f v =>
         simp only [viewSize] at h
         cases c with
         | top =>
           have := ih.1 .top v (by omega) (by simpa [noLate] using hn)
-          simpa [compile, viewDoc] using this
+          simpa [compile_raw, compile_seq, compileL_nil, compileL_cons, compile_suspend_top, compile_suspend_direct, compile_suspend_nested, compile_resSuspend_top, compile_resSuspend_direct, compile_resSuspend_nested, compile_eb, compile_resRead_top, compile_resRead_direct, compile_resRead_nested, compile_localRead, compile_localAwait, viewDoc] using this
         | direct =>
           have := ih.1 .nested v (by omega) (by simpa [noLate] using hn)
-          simpa [compile, viewDoc] using this
+          simpa [compile_raw, compile_seq, compileL_nil, compileL_cons, compile_suspend_top, compile_suspend_direct, compile_suspend_nested, compile_resSuspend_top, compile_resSuspend_direct, compile_resSuspend_nested, compile_eb, compile_resRead_top, compile_resRead_direct, compile_resRead_nested, compile_localRead, compile_localAwait, viewDoc] using this
         | nested => simp [noLate] at hn
-      | localRead => cases c <;> simp [compile, inOrdOps, docOps, viewDoc]
-      | localAwait f => cases c <;> simp [compile, inOrdOps, docOps, viewDoc]
+      | localRead => cases c <;> simp [compile_raw, compile_seq, compileL_nil, compileL_cons, compile_suspend_top, compile_suspend_direct, compile_suspend_nested, compile_resSuspend_top, compile_resSuspend_direct, compile_resSuspend_nested, compile_eb, compile_resRead_top, compile_resRead_direct, compile_resRead_nested, compile_localRead, compile_localAwait, inOrdOps, docOps, viewDoc]
+      | localAwait f => cases c <;> simp [compile_raw, compile_seq, compileL_nil, compileL_cons, compile_suspend_top, compile_suspend_direct, compile_suspend_nested, compile_resSuspend_top, compile_resSuspend_direct, compile_resSuspend_nested, compile_eb, compile_resRead_top, compile_resRead_direct, compile_resRead_nested, compile_localRead, compile_localAwait, inOrdOps, docOps, viewDoc]
     exact ⟨hV, fun c vs h hn => hL c vs h hn hV⟩
 
 /-! `oooViewOk`: no boundary whose future resolves to `None` *later* (`localWait`: a `LocalResource` awaited after another
@@ -177,7 +267,7 @@ def oooViewOk : View → Bool
   | .suspense _ _ vs => (localNowL vs || (localWaitL vs).isNone) && oooViewOkL vs
   | .eb vs => oooViewOkL vs
   | .resSuspend _ v => oooViewOk v
-  | .resRead _ v => oooViewOk v
+  | .resRead _ _ v => oooViewOk v
   | .localRead => true
   | .localAwait _ => true
 def oooViewOkL : List View → Bool
@@ -297,7 +387,7 @@ theorem compile_oooWf : ∀ (n : Nat),
     · intro c v h; cases v <;> simp [viewSize] at h
     · intro c vs h _ _
       cases vs with
-      | nil => exact ⟨by simp [compileL]; exact .nil, by simp [compileL, oooDocOps, viewDocL]⟩
+      | nil => exact ⟨by simp [compileL_nil, compileL_cons]; exact .nil, by simp [compileL_nil, compileL_cons, oooDocOps, viewDocL]⟩
       | cons v vs => cases v <;> simp [viewSizeL, viewSize] at h
   | succ n ih =>
     have hL : ∀ (c : Ctx) (vs : List View), viewSizeL vs ≤ n + 1 → oooViewOkL vs = true → noLateL c vs = true →
@@ -306,7 +396,7 @@ theorem compile_oooWf : ∀ (n : Nat),
         OooWf (compileL true c vs) ∧ oooDocOps (compileL true c vs) = viewDocL vs := by
       intro c vs
       induction vs with
-      | nil => intro _ _ _ _; exact ⟨by simp [compileL]; exact .nil, by simp [compileL, oooDocOps, viewDocL]⟩
+      | nil => intro _ _ _ _; exact ⟨by simp [compileL_nil, compileL_cons]; exact .nil, by simp [compileL_nil, compileL_cons, oooDocOps, viewDocL]⟩
       | cons v vs ihv =>
         intro h hok hn hv
         simp only [viewSizeL] at h
@@ -314,17 +404,17 @@ theorem compile_oooWf : ∀ (n : Nat),
         simp only [noLateL, Bool.and_eq_true] at hn
         have h1 := hv c v (by omega) hok.1 hn.1
         have h2 := ihv (by omega) hok.2 hn.2 hv
-        refine ⟨by simp only [compileL]; exact h1.1.append h2.1, ?_⟩
-        simp [compileL, oooDocOps_append h1.1, viewDocL, h1.2, h2.2]
+        refine ⟨by simp only [compileL_nil, compileL_cons]; exact h1.1.append h2.1, ?_⟩
+        simp [compileL_nil, compileL_cons, oooDocOps_append h1.1, viewDocL, h1.2, h2.2]
     have hV : ∀ (c : Ctx) (v : View), viewSize v ≤ n + 1 → oooViewOk v = true → noLate c v = true →
         OooWf (compile true c v) ∧ oooDocOps (compile true c v) = viewDoc v := by
       intro c v h hok hn
       cases v with
-      | raw s => cases c <;> exact ⟨by simp only [compile]; exact .sync s .nil, by simp [compile, oooDocOps, oooDocOp, viewDoc]⟩
+      | raw s => cases c <;> exact ⟨by simp only [compile_raw, compile_seq, compileL_nil, compileL_cons, compile_suspend_top, compile_suspend_direct, compile_suspend_nested, compile_resSuspend_top, compile_resSuspend_direct, compile_resSuspend_nested, compile_eb, compile_resRead_top, compile_resRead_direct, compile_resRead_nested, compile_localRead, compile_localAwait]; exact .sync s .nil, by simp [compile_raw, compile_seq, compileL_nil, compileL_cons, compile_suspend_top, compile_suspend_direct, compile_suspend_nested, compile_resSuspend_top, compile_resSuspend_direct, compile_resSuspend_nested, compile_eb, compile_resRead_top, compile_resRead_direct, compile_resRead_nested, compile_localRead, compile_localAwait, oooDocOps, oooDocOp, viewDoc]⟩
       | seq vs =>
         simp only [viewSize] at h
         have := ih.2 c vs (by omega) (by simpa [oooViewOk] using hok) (by cases c <;> simpa [noLate] using hn)
-        cases c <;> simpa [compile, viewDoc] using this
+        cases c <;> simpa [compile_raw, compile_seq, compileL_nil, compileL_cons, compile_suspend_top, compile_suspend_direct, compile_suspend_nested, compile_resSuspend_top, compile_resSuspend_direct, compile_resSuspend_nested, compile_eb, compile_resRead_top, compile_resRead_direct, compile_resRead_nested, compile_localRead, compile_localAwait, viewDoc] using this
       | suspend f v =>
         simp only [viewSize] at h
         have hv : oooViewOk v = true := by simpa [oooViewOk] using hok
@@ -332,34 +422,36 @@ theorem compile_oooWf : ∀ (n : Nat),
         | top =>
           have := ih.1 .top v (by omega) hv (by simpa [noLate] using hn)
           refine ⟨?_, ?_⟩
-          · simp only [compile, if_true]
+          · simp only [compile_raw, compile_seq, compileL_nil, compileL_cons, compile_suspend_top, compile_suspend_direct, compile_suspend_nested, compile_resSuspend_top, compile_resSuspend_direct, compile_resSuspend_nested, compile_eb, compile_resRead_top, compile_resRead_direct, compile_resRead_nested, compile_localRead, compile_localAwait, if_true]
             exact .ite _ this.1 (.triple _ _ _ this.1 .nil) (by simp [oooDocOps, oooDocOp]) .nil
-          · simp [compile, oooDocOps, oooDocOp, viewDoc, this.2]
+          · simp [compile_raw, compile_seq, compileL_nil, compileL_cons, compile_suspend_top, compile_suspend_direct, compile_suspend_nested, compile_resSuspend_top, compile_resSuspend_direct, compile_resSuspend_nested, compile_eb, compile_resRead_top, compile_resRead_direct, compile_resRead_nested, compile_localRead, compile_localAwait, oooDocOps, oooDocOp, viewDoc, this.2]
         | direct =>
           have := ih.1 .nested v (by omega) hv (by simpa [noLate] using hn)
-          simpa [compile, viewDoc] using this
+          simpa [compile_raw, compile_seq, compileL_nil, compileL_cons, compile_suspend_top, compile_suspend_direct, compile_suspend_nested, compile_resSuspend_top, compile_resSuspend_direct, compile_resSuspend_nested, compile_eb, compile_resRead_top, compile_resRead_direct, compile_resRead_nested, compile_localRead, compile_localAwait, viewDoc] using this
         | nested =>
           have := ih.1 .nested v (by omega) hv (by simpa [noLate] using hn)
-          simpa [compile, viewDoc] using this
+          simpa [compile_raw, compile_seq, compileL_nil, compileL_cons, compile_suspend_top, compile_suspend_direct, compile_suspend_nested, compile_resSuspend_top, compile_resSuspend_direct, compile_resSuspend_nested, compile_eb, compile_resRead_top, compile_resRead_direct, compile_resRead_nested, compile_localRead, compile_localAwait, viewDoc] using this
       | suspense fb nonce vs =>
         simp only [viewSize] at h
         simp only [oooViewOk, Bool.and_eq_true, Bool.or_eq_true] at hok
-        have := ih.2 .direct vs (by omega) hok.2 (by cases c <;> simpa [noLate] using hn)
+        have hnl : noLateL .direct vs = true := by cases c <;> simpa [noLate] using hn
+        have hS := fun ooo c => compile_suspense ooo c fb nonce vs (noLateL_direct_guards vs hnl)
+        have := ih.2 .direct vs (by omega) hok.2 hnl
         by_cases hl : localNowL vs = true
-        · cases c <;> exact ⟨by simp only [compile, hl, if_true]; exact .nextId (.sync fb .nil),
-            by simp [compile, hl, oooDocOps, oooDocOp, viewDoc]⟩
+        · cases c <;> exact ⟨by simp only [compile_raw, compile_seq, compileL_nil, compileL_cons, compile_suspend_top, compile_suspend_direct, compile_suspend_nested, compile_resSuspend_top, compile_resSuspend_direct, compile_resSuspend_nested, compile_eb, compile_resRead_top, compile_resRead_direct, compile_resRead_nested, compile_localRead, compile_localAwait, hS, hl, if_true]; exact .nextId (.sync fb .nil),
+            by simp [compile_raw, compile_seq, compileL_nil, compileL_cons, compile_suspend_top, compile_suspend_direct, compile_suspend_nested, compile_resSuspend_top, compile_resSuspend_direct, compile_resSuspend_nested, compile_eb, compile_resRead_top, compile_resRead_direct, compile_resRead_nested, compile_localRead, compile_localAwait, hS, hl, oooDocOps, oooDocOp, viewDoc]⟩
         · have hl' : localNowL vs = false := by simpa using hl
           have hw : localWaitL vs = none := by
             rcases hok.1 with h0 | h0
             · exact absurd h0 hl
             · simpa using h0
-          cases c <;> exact ⟨by simp only [compile, hl', hw, if_true, Bool.false_eq_true, if_false]; exact .triple _ _ _ this.1 .nil,
-            by simp [compile, hl', hw, oooDocOps, oooDocOp, viewDoc, this.2]⟩
+          cases c <;> exact ⟨by simp only [compile_raw, compile_seq, compileL_nil, compileL_cons, compile_suspend_top, compile_suspend_direct, compile_suspend_nested, compile_resSuspend_top, compile_resSuspend_direct, compile_resSuspend_nested, compile_eb, compile_resRead_top, compile_resRead_direct, compile_resRead_nested, compile_localRead, compile_localAwait, hS, hl', hw, if_true, Bool.false_eq_true, if_false]; exact .triple _ _ _ this.1 .nil,
+            by simp [compile_raw, compile_seq, compileL_nil, compileL_cons, compile_suspend_top, compile_suspend_direct, compile_suspend_nested, compile_resSuspend_top, compile_resSuspend_direct, compile_resSuspend_nested, compile_eb, compile_resRead_top, compile_resRead_direct, compile_resRead_nested, compile_localRead, compile_localAwait, hS, hl', hw, oooDocOps, oooDocOp, viewDoc, this.2]⟩
       | eb vs =>
         simp only [viewSize] at h
         have := ih.2 c vs (by omega) (by simpa [oooViewOk] using hok) (by cases c <;> simpa [noLate] using hn)
-        cases c <;> exact ⟨by simp only [compile]; exact .sub this.1 .nil,
-          by simp [compile, oooDocOps, oooDocOp, viewDoc, this.2]⟩
+        cases c <;> exact ⟨by simp only [compile_raw, compile_seq, compileL_nil, compileL_cons, compile_suspend_top, compile_suspend_direct, compile_suspend_nested, compile_resSuspend_top, compile_resSuspend_direct, compile_resSuspend_nested, compile_eb, compile_resRead_top, compile_resRead_direct, compile_resRead_nested, compile_localRead, compile_localAwait]; exact .sub this.1 .nil,
+          by simp [compile_raw, compile_seq, compileL_nil, compileL_cons, compile_suspend_top, compile_suspend_direct, compile_suspend_nested, compile_resSuspend_top, compile_resSuspend_direct, compile_resSuspend_nested, compile_eb, compile_resRead_top, compile_resRead_direct, compile_resRead_nested, compile_localRead, compile_localAwait, oooDocOps, oooDocOp, viewDoc, this.2]⟩
       | resSuspend f v =>
         simp only [viewSize] at h
         have hv : oooViewOk v = true := by simpa [oooViewOk] using hok
@@ -367,28 +459,28 @@ theorem compile_oooWf : ∀ (n : Nat),
         | top =>
           have := ih.1 .top v (by omega) hv (by simpa [noLate] using hn)
           refine ⟨?_, ?_⟩
-          · simp only [compile, if_true]
+          · simp only [compile_raw, compile_seq, compileL_nil, compileL_cons, compile_suspend_top, compile_suspend_direct, compile_suspend_nested, compile_resSuspend_top, compile_resSuspend_direct, compile_resSuspend_nested, compile_eb, compile_resRead_top, compile_resRead_direct, compile_resRead_nested, compile_localRead, compile_localAwait, if_true]
             exact .ite _ this.1 (.triple _ _ _ this.1 .nil) (by simp [oooDocOps, oooDocOp]) .nil
-          · simp [compile, oooDocOps, oooDocOp, viewDoc, this.2]
+          · simp [compile_raw, compile_seq, compileL_nil, compileL_cons, compile_suspend_top, compile_suspend_direct, compile_suspend_nested, compile_resSuspend_top, compile_resSuspend_direct, compile_resSuspend_nested, compile_eb, compile_resRead_top, compile_resRead_direct, compile_resRead_nested, compile_localRead, compile_localAwait, oooDocOps, oooDocOp, viewDoc, this.2]
         | direct =>
           have := ih.1 .nested v (by omega) hv (by simpa [noLate] using hn)
-          simpa [compile, viewDoc] using this
+          simpa [compile_raw, compile_seq, compileL_nil, compileL_cons, compile_suspend_top, compile_suspend_direct, compile_suspend_nested, compile_resSuspend_top, compile_resSuspend_direct, compile_resSuspend_nested, compile_eb, compile_resRead_top, compile_resRead_direct, compile_resRead_nested, compile_localRead, compile_localAwait, viewDoc] using this
         | nested =>
           have := ih.1 .nested v (by omega) hv (by simpa [noLate] using hn)
-          simpa [compile, viewDoc] using this
-      | resRead f v =>
+          simpa [compile_raw, compile_seq, compileL_nil, compileL_cons, compile_suspend_top, compile_suspend_direct, compile_suspend_nested, compile_resSuspend_top, compile_resSuspend_direct, compile_resSuspend_nested, compile_eb, compile_resRead_top, compile_resRead_direct, compile_resRead_nested, compile_localRead, compile_localAwait, viewDoc] using this
+      | resRead once f v =>
         simp only [viewSize] at h
         have hv : oooViewOk v = true := by simpa [oooViewOk] using hok
         cases c with
         | top =>
           have := ih.1 .top v (by omega) hv (by simpa [noLate] using hn)
-          simpa [compile, viewDoc] using this
+          simpa [compile_raw, compile_seq, compileL_nil, compileL_cons, compile_suspend_top, compile_suspend_direct, compile_suspend_nested, compile_resSuspend_top, compile_resSuspend_direct, compile_resSuspend_nested, compile_eb, compile_resRead_top, compile_resRead_direct, compile_resRead_nested, compile_localRead, compile_localAwait, viewDoc] using this
         | direct =>
           have := ih.1 .nested v (by omega) hv (by simpa [noLate] using hn)
-          simpa [compile, viewDoc] using this
+          simpa [compile_raw, compile_seq, compileL_nil, compileL_cons, compile_suspend_top, compile_suspend_direct, compile_suspend_nested, compile_resSuspend_top, compile_resSuspend_direct, compile_resSuspend_nested, compile_eb, compile_resRead_top, compile_resRead_direct, compile_resRead_nested, compile_localRead, compile_localAwait, viewDoc] using this
         | nested => simp [noLate] at hn
-      | localRead => cases c <;> exact ⟨by simp only [compile]; exact .nil, by simp [compile, oooDocOps, viewDoc]⟩
-      | localAwait f => cases c <;> exact ⟨by simp only [compile]; exact .nil, by simp [compile, oooDocOps, viewDoc]⟩
+      | localRead => cases c <;> exact ⟨by simp only [compile_raw, compile_seq, compileL_nil, compileL_cons, compile_suspend_top, compile_suspend_direct, compile_suspend_nested, compile_resSuspend_top, compile_resSuspend_direct, compile_resSuspend_nested, compile_eb, compile_resRead_top, compile_resRead_direct, compile_resRead_nested, compile_localRead, compile_localAwait]; exact .nil, by simp [compile_raw, compile_seq, compileL_nil, compileL_cons, compile_suspend_top, compile_suspend_direct, compile_suspend_nested, compile_resSuspend_top, compile_resSuspend_direct, compile_resSuspend_nested, compile_eb, compile_resRead_top, compile_resRead_direct, compile_resRead_nested, compile_localRead, compile_localAwait, oooDocOps, viewDoc]⟩
+      | localAwait f => cases c <;> exact ⟨by simp only [compile_raw, compile_seq, compileL_nil, compileL_cons, compile_suspend_top, compile_suspend_direct, compile_suspend_nested, compile_resSuspend_top, compile_resSuspend_direct, compile_resSuspend_nested, compile_eb, compile_resRead_top, compile_resRead_direct, compile_resRead_nested, compile_localRead, compile_localAwait]; exact .nil, by simp [compile_raw, compile_seq, compileL_nil, compileL_cons, compile_suspend_top, compile_suspend_direct, compile_suspend_nested, compile_resSuspend_top, compile_resSuspend_direct, compile_resSuspend_nested, compile_eb, compile_resRead_top, compile_resRead_direct, compile_resRead_nested, compile_localRead, compile_localAwait, oooDocOps, viewDoc]⟩
     exact ⟨hV, fun c vs h hok hn => hL c vs h hok hn hV⟩
 
 /-! ### marker ids (`next_id`, the `push(0)` of a sub-builder) -/
